@@ -89,6 +89,11 @@ class Blockwise(ArrayExpr):
                 for c, i in zip(arg.chunks, ind):
                     if i not in chunkss or len(c) > len(chunkss[i]):
                         chunkss[i] = c
+                    elif len(c) == len(chunkss[i]):
+                        # blocks of length 1 broadcast against the other input's blocks
+                        chunkss[i] = tuple(
+                            b if a == 1 else a for a, b in zip(chunkss[i], c)
+                        )
 
         for k, v in self.new_axes.items():
             if not isinstance(v, tuple):
